@@ -53,7 +53,7 @@ def _file_of(pkg, d):
 SIMPLE_PRIMS = ["int32", "int64", "uint16", "float32", "float64", "string", "bool", "uint8"]
 
 COMPATIBLE = ["add_optional_field", "remove_optional_field", "reorder_fields", "add_step", "add_def", "rename_with_alias"]
-PARTIAL = ["add_field", "remove_field", "widen_field", "make_optional"]
+PARTIAL = ["add_field", "remove_field", "widen_field", "make_optional", "widen_vector_field", "widen_step"]
 FREE = ["retype_field", "add_protocol", "change_enum"]  # valid packages, but not evolution-safe
 
 
@@ -104,6 +104,29 @@ def apply_edit(pkg: M.Package, rng: Rng, kind: str):
         n, t = r.fields[i]
         r.fields[i] = (n, Prim(WIDEN[t.name]))
         return "widen_field %s.%s %s->%s" % (r.name, n, t.name, WIDEN[t.name])
+    if kind == "widen_vector_field":
+        cands = [(r, i) for r in recs for i, (_, t) in enumerate(r.fields)
+                 if isinstance(t, Vec) and isinstance(t.inner, Prim) and t.inner.name in WIDEN]
+        if not cands:
+            return None
+        r, i = rng.choice(cands)
+        n, t = r.fields[i]
+        r.fields[i] = (n, Vec(Prim(WIDEN[t.inner.name]), t.length))
+        return "widen_vector_field %s.%s %s*->%s*" % (r.name, n, t.inner.name, WIDEN[t.inner.name])
+    if kind == "widen_step":
+        cands = []
+        for p in _protocols(pkg):
+            for i, (n, t, st) in enumerate(p.steps):
+                if isinstance(t, Prim) and t.name in WIDEN:
+                    cands.append((p, i, Prim(WIDEN[t.name])))
+                elif isinstance(t, Vec) and isinstance(t.inner, Prim) and t.inner.name in WIDEN:
+                    cands.append((p, i, Vec(Prim(WIDEN[t.inner.name]), t.length)))
+        if not cands:
+            return None
+        p, i, nt = rng.choice(cands)
+        n, t, st = p.steps[i]
+        p.steps[i] = (n, nt, st)
+        return "widen_step %s.%s" % (p.name, n)
     if kind == "make_optional":
         cands = [(r, i) for r in recs for i, (_, t) in enumerate(r.fields) if isinstance(t, Prim)]
         if not cands:
